@@ -202,8 +202,10 @@ impl FileSystem for OverlayFS {
     }
 
     fn remove_dir(&self, path: &str) -> VfsResult<()> {
-        // Ensure path exists
-        self.read_path(path)?;
+        // Ensure path exists and is a directory
+        if self.read_path(path)?.metadata()?.file_type != VfsFileType::Directory {
+            return Err(VfsErrorKind::Other("Not a directory".into()).into());
+        }
         let write_path = self.write_path(path)?;
         if write_path.exists()? {
             write_path.remove_dir()?;
